@@ -1205,7 +1205,10 @@ impl Stage {
             .flatten()
             .last()
             .map_or(false, |(_, l, _)| l.last().map_or(false, |x| wrap_rows(x, w).last().map_or(false, |row| !row.is_empty())));
-        if !(self.bottom && self.multi && region_nonblank && region_rows <= self.h) {
+        // (a call that draws several frames may have had taller, height-truncated frames in
+        // between: the bottom edge is only compared across single-frame calls)
+        let multi_draw = at.contains(" iter_exhaust(") || at.contains(" iter_partial(") || at.contains(" burn(");
+        if !(self.bottom && self.multi && region_nonblank && region_rows <= self.h) || multi_draw {
             self.last_region_bottom = 0;
         } else {
             let bottom_edge = actual.len();
